@@ -187,18 +187,35 @@ def values(db, name, N) -> np.ndarray:
     return np.asarray(db[name].get_data(START >> START + (N - 1)), dtype=float).ravel()
 
 
-def sim_kwargs(method):
+METHOD_SPELLINGS = {"first_order": ["first_order", None], "stacked_time": ["stacked_time", "stacked"],
+                    "period_by_period": ["period_by_period", "period"]}     # None = the keyword is left out (the documented default)
+PLAN_CLASSES = ["SimulationPlan", "PlanSimulate", "Plan"]                     # documented aliases of one class
+
+
+def resolve_method(spelling):
+    """the harness's own resolution of a method spelling (from the documentation of Simultaneous.simulate), not the implementation's table"""
+    for canonical, sp in METHOD_SPELLINGS.items():
+        if spelling in sp:
+            return canonical
+    raise KeyError(spelling)
+
+
+def sim_kwargs(method, key=None):
+    """keyword arguments for `simulate`; `method` is the canonical name, `key` (None = canonical spelling) picks one of its spellings"""
+    sp = METHOD_SPELLINGS[method]
+    spelling = sp[0] if key is None else sp[key % len(sp)]
+    kw = {} if spelling is None else {"method": spelling}
     if method == "stacked_time":
-        return {"method": method, "solver_settings": {"step_tolerance": float("inf")}}
-    return {"method": method}
+        kw["solver_settings"] = {"step_tolerance": float("inf")}
+    return kw, spelling
 
 
-def simulate(m, db, N, method, plan=None):
+def simulate(m, db, N, method, plan=None, key=None):
     span = START >> START + (N - 1)
     buf = io.StringIO()
+    kw, _ = sim_kwargs(method, key)
     with contextlib.redirect_stdout(buf):
-        return m.simulate(db, span, plan=plan, **sim_kwargs(method))
-
+        return m.simulate(db, span, plan=plan, **kw)
 
 
 def plan_condition(m, spec, N, targets, instruments) -> float:
@@ -488,8 +505,11 @@ def run_impl(case):
         set_cell(db, cell[0], cell[1], val)
     for (sh, t), val in zip(case["instruments"], case["truth"]):
         set_cell(db, sh, t, val)
-    sim1 = simulate(m, db, N, method)
-    plan = ir.SimulationPlan(m, span)
+    sim1 = simulate(m, db, N, method, key=form_key(case["scramble_seed"], "first-leg"))
+    skey = case["scramble_seed"]
+    plan_class = PLAN_CLASSES[form_key(skey, "class") % len(PLAN_CLASSES)]
+    plan = getattr(ir, plan_class)(m, span)
+    spellings: list = [f"class:{plan_class}"]
     def suffix(i):
         # a mixed plan holds anticipated and unanticipated swaps side by side: the mode is a property of the pair
         md = case["modes"][i] if case.get("modes") else mode
@@ -505,12 +525,28 @@ def run_impl(case):
             groups: dict = {}
             for i in idxs:
                 (v, t), (sh, ts) = case["targets"][i], case["instruments"][i]
+                if t == ts and form_key(skey, si, i, "swap") % 3 == 0:
+                    # the documented one-call spelling of "exogenize v and endogenize sh at the same dates"
+                    obj, form = dates_arg([t], N, form_key(skey, si, "swap", i))
+                    forms_used.append(form.split("(")[0])
+                    spellings.append("swap_*")
+                    getattr(plan, "swap_" + suffix(i))(obj, (v, sh), **({} if status else {"status": False}))
+                    continue
                 groups.setdefault(("exogenize_" + suffix(i), v), []).append(t)
                 groups.setdefault(("endogenize_" + suffix(i), sh), []).append(ts)
             for (meth, nm), ts_ in groups.items():
-                obj, form = dates_arg(ts_, N, form_key(case["scramble_seed"], si, meth, nm, ts_))
+                obj, form = dates_arg(ts_, N, form_key(skey, si, meth, nm, ts_))
                 forms_used.append(form.split("(")[0])
-                getattr(plan, meth)(obj, nm, status=status)
+                how = form_key(skey, si, meth, nm, "kw") % 3
+                if how == 0:
+                    spellings.append("keywords")
+                    getattr(plan, meth)(dates=obj, names=nm, status=status)
+                elif how == 1 and status:
+                    spellings.append("status-omitted")
+                    getattr(plan, meth)(obj, nm)
+                else:
+                    spellings.append("positional")
+                    getattr(plan, meth)(obj, nm, status=status)
         active = want
         idx = sorted(active)
         sub = dict(case, targets=[case["targets"][i] for i in idx], instruments=[case["instruments"][i] for i in idx],
@@ -534,11 +570,25 @@ def run_impl(case):
                     if (v, t) not in tset:
                         d = r.dyadic(-2, 2)
                         set_cell(db2, v, t, get_cell(db2, v, t) * math.exp(d / 2) if is_log(spec, v) else get_cell(db2, v, t) + d)
-        out = {"m": m, "db1": db, "sim1": sim1, "db2": db2, "plan": plan, "forms": list(forms_used)}
+        mkey = form_key(skey, si, "method")
+        out = {"m": m, "db1": db, "sim1": sim1, "db2": db2, "plan": plan, "forms": list(forms_used),
+               "spellings": list(spellings) + [f"method:{sim_kwargs(stage_method, mkey)[1]}"]}
         try:
-            out["sim2"] = simulate(m, db2, N, stage_method, plan=plan)
+            out["sim2"] = simulate(m, db2, N, stage_method, plan=plan, key=mkey)
         except Exception as e:
             out["error"] = f"{type(e).__name__}: {str(e)[:120]}"
+        if "sim2" in out and form_key(skey, si, "equiv") % 2 == 0:
+            # the same request in the canonical spelling: a fresh plan of the canonical class, one exogenize_/endogenize_ call per point with
+            # positional arguments and a tuple of one period, the full method name
+            try:
+                canon = ir.SimulationPlan(m, span)
+                for i in idx:
+                    (v, t), (sh, ts) = case["targets"][i], case["instruments"][i]
+                    getattr(canon, "exogenize_" + suffix(i))((START + t,), v, status=True)
+                    getattr(canon, "endogenize_" + suffix(i))((START + ts,), sh, status=True)
+                out["canon"] = simulate(m, db2, N, stage_method, plan=canon)
+            except Exception as e:
+                out["canon_error"] = f"{type(e).__name__}: {str(e)[:120]}"
         results.append((sub, out))
     return results
 
